@@ -166,7 +166,7 @@ def run(ck):
         mt = "(Some %s)" % vmt(r["mt"], True) if r["has_mt"] else "None"
         slots = "(Some [%s])" % ";".join(str(x) for x in r["slots"]) if r["ok"] else "None"
         terms.append("((%s, %s), (%s, %s))" % (vmt(r["inter"], False), mt, slots, "true" if r["impl"] else "false"))
-    bad = ck.coq_mismatches(hdr, terms, "(fun p => (new_itab (fst p) (snd p), implements (fst p) (snd p)))",
+    bad = ck.coq_mismatches(hdr, terms, "(fun p => (new_itab (fst p) (snd p), implements true (fst p) (snd p)))",
                             "(prod_eqb ostrN_eqb Bool.eqb)", "c07_itab", shard=500)
     if bad:
         ck.correspondence_broken("C07.Model/new_itab+implements", {"n_mismatch": len(bad), "first": its[bad[0]]})
